@@ -19,6 +19,9 @@
 EXTENDS Integers, Sequences, SequencesExt, FiniteSets, TLC
 
 Byte == 0..255
+\* Let1({ e(v) : v \in {a} }) is "LET v == a IN e(v)" with a evaluated ONCE (TLC re-evaluates a LET
+\* definition or an operator argument at every use when it checks invariants).
+Let1(S) == CHOOSE v \in S : TRUE
 
 (* ===================================================================== UTF-8 *)
 \* RFC 3629.  Surrogates are not scalar values and have no encoding.
@@ -81,24 +84,26 @@ B64Encode(bs) ==
 \* a sequence of one-character strings as one string (for export)
 Str(cs) == FoldLeft(LAMBDA acc, c : acc \o c, "", cs)
 
-B64Val == TLCEval([c \in {B64Chars[i] : i \in 1..64} |-> (CHOOSE i \in 1..64 : B64Chars[i] = c) - 1])
-B64Index(c) == IF c \in DOMAIN B64Val THEN B64Val[c] ELSE 0 - 1
-\* strict decoding (RFC 4648 sections 3.3 and 3.5): only alphabet characters, length a multiple of 4,
-\* at most two "=" at the very end, unused bits zero.  [ok, v]
+B64Set == {B64Chars[i] : i \in 1..64}
+B64Val == [c \in B64Set |-> (CHOOSE i \in 1..64 : B64Chars[i] = c) - 1]
+B64Index(c) == IF c \in B64Set THEN B64Val[c] ELSE 0 - 1
+\* Strict decoding (RFC 4648 sections 3.3, 3.5) as a character machine: acc holds nb (< 8) pending bits.
+\* Only alphabet characters, "=" only at the end, length a multiple of 4, the padding completes the
+\* last group, pending bits zero.  Result [ok, v].
+B64Start == [acc |-> 0, nb |-> 0, out |-> <<>>, pad |-> 0, bad |-> FALSE, n |-> 0]
+B64Step(st, c) ==
+  IF st.bad THEN st
+  ELSE IF c = "=" THEN [st EXCEPT !.pad = @ + 1, !.n = @ + 1]
+  ELSE IF st.pad > 0 \/ c \notin B64Set THEN [st EXCEPT !.bad = TRUE]
+  ELSE IF st.nb = 0 THEN [st EXCEPT !.acc = B64Val[c], !.nb = 6, !.n = @ + 1]
+  ELSE LET v == st.acc * 64 + B64Val[c]
+           keep == IF st.nb = 6 THEN 16 ELSE IF st.nb = 4 THEN 4 ELSE 1        \* 2^(nb + 6 - 8)
+       IN [st EXCEPT !.acc = v % keep, !.nb = st.nb - 2, !.out = Append(@, v \div keep), !.n = @ + 1]
 B64Decode(cs) ==
-  LET n == Len(cs)
-      pad == IF n >= 2 /\ cs[n] = "=" /\ cs[n - 1] = "=" THEN 2 ELSE IF n >= 1 /\ cs[n] = "=" THEN 1 ELSE 0
-      m == n - pad
-      ix == [i \in 1..n |-> IF i <= m THEN B64Index(cs[i]) ELSE 0]
-      wf == /\ n % 4 = 0
-            /\ \A i \in 1..m : ix[i] >= 0
-            /\ (pad = 2 => ix[m] % 16 = 0)
-            /\ (pad = 1 => ix[m] % 4 = 0)
-      grp(q) == LET a == ix[4*q - 3]  b == ix[4*q - 2]  c == ix[4*q - 1]  d == ix[4*q]
-                    all == << a * 4 + b \div 16, (b % 16) * 16 + c \div 4, (c % 4) * 64 + d >>
-                IN IF q = n \div 4 THEN SubSeq(all, 1, 3 - pad) ELSE all
-  IN IF ~wf THEN [ok |-> FALSE, v |-> <<>>]
-     ELSE [ok |-> TRUE, v |-> FlattenSeq([q \in 1..(n \div 4) |-> grp(q)])]
+  Let1({ IF /\ ~st.bad /\ st.n % 4 = 0 /\ st.acc = 0
+            /\ st.pad = (IF st.nb = 4 THEN 2 ELSE IF st.nb = 2 THEN 1 ELSE 0) /\ st.nb # 6
+         THEN [ok |-> TRUE, v |-> st.out] ELSE [ok |-> FALSE, v |-> <<>>]
+         : st \in {FoldLeft(B64Step, B64Start, cs)} })
 
 (* ======================================================== compact signatures *)
 \* header byte: 27 + recovery id (0..3) + 4 if the signer's public key is used in compressed form
